@@ -76,6 +76,22 @@ pub fn codec(r: &mut Rng, n: usize, thorough: bool, out: &mut Out) {
             }
         }
     }
+    // very long programs: around the 16-bit boundaries of instruction counts (jump and loop operands are 16 bits wide,
+    // instruction counts are not), with a well-formed, a truncated and a garbage tail
+    for n in [65534usize, 65535, 65536, 65537, 70000] {
+        let mut b = vec![0x09u8; n]; // noop
+        b.extend_from_slice(&[0xf2, 0x01, 0x01]); // pushic 1
+        out.emit2(dec_line(&b));
+        let mut t = b.clone();
+        t.extend_from_slice(&[0xf2, 0x01]); // pushic cut off
+        out.emit2(dec_line(&t));
+        let mut g = b.clone();
+        g.extend_from_slice(&[0xee, 0x03]); // not an opcode
+        out.emit2(dec_line(&g));
+        let mut z = b.clone();
+        z.extend_from_slice(&[0xf2, 0x00]); // pushic 0 after it: a different program
+        out.emit2(dec_line(&z));
+    }
     // every opcode with every argument-length class, plus truncations
     for _ in 0..(if thorough { 40 } else { 6 }) {
         for op in vmgen::all_ops(r) {
@@ -200,6 +216,16 @@ pub fn weight(r: &mut Rng, n: usize, thorough: bool, out: &mut Out) {
     ];
     for ops in sat {
         out.emit2(w_line(&Covenant::from_ops(&ops).to_bytes()));
+    }
+    // properly nested saturated loops (each loop's body is everything after it), with and without something after
+    // the nest and inside the innermost body: every accumulation of the weigher meets values at the u128 ceiling
+    for depth in 5u16..=10 {
+        let nest: Vec<OpCode> = (0..depth).map(|i| Loop(65535, depth - i)).collect();
+        for tail in [vec![Noop], vec![Noop, Noop], vec![Hash(65535)], vec![Noop, Add, Hash(65535), Noop]] {
+            let mut ops = nest.clone();
+            ops.extend(tail);
+            out.emit2(w_line(&Covenant::from_ops(&ops).to_bytes()));
+        }
     }
     for i in 0..n {
         let ops = if i % 3 == 0 { vmgen::loopy_program(r) } else { vmgen::mixed_program(r) };
